@@ -49,6 +49,8 @@ def _spin_range(a, b):
 def _spin_int(x):
     if isinstance(x, int):
         return x
+    if x < 0:
+        return -int(-x + 0.1)
     return int(x + 0.1)
 
 
